@@ -16,8 +16,22 @@ def _fields(f, adt):
     return [fl for v in a["variants"] for fl in v["fields"]]
 
 
+DEFAULT_NAMES = {
+    "the connection semaphore": "limit_connections", "the server config": "config", "the shared MemcStore": "storage",
+    "the connection": "stream", "the client config": "config", "the command handler": "handler", "the inner store": "store",
+    "the memory limit": "memory_limit", "the usage counter": "memory_usage", "the map": "memory", "the timer": "timer",
+    "the cas counter": "cas_id", "the socket": "stream", "the read buffer": "buffer", "the codec": "codec",
+    "the request header": "header", "the item size limit": "item_size_limit", "the parser state": "state",
+    "the store": "store", "the MemcStore": "storage", "the seconds counter": "seconds",
+}
+
+
 def field_by_type(f, adt, pred, what):
     hits = [fl["name"] for fl in _fields(f, adt) if pred(fl["ty"])]
+    if len(hits) != 1 and DEFAULT_NAMES.get(what) in hits:
+        # several fields of that type (e.g. a statistics counter next to the cas counter): the one that still carries the
+        # pinned tree's name is meant
+        return DEFAULT_NAMES[what]
     if len(hits) != 1:
         raise AnchorMissing("%s: the field of %s holding %s (found %s)" % (what, adt.split("::")[-1], what, hits))
     return hits[0]
